@@ -645,7 +645,7 @@ def finish(run):
             "re|nonlinear|multi|draw_residual", "re|nonlinear|multi|ovi_modes"]
     have = list(run.outcomes)
     missing = [x for x in need if not any(h.startswith(x) for h in have)]
-    if missing and not run.violations:
+    if missing and not run.violations and not run.extra.get("filtered_by"):
         run.violations.append((dict(vacuity=missing), bad("no compared sample for %s" % missing, finding_key="harness|vacuous-class")))
     return dict(curved_geo_cases=sum(v for o, v in run.outcomes.items() if o.endswith("|curved")),
                 pe_cases=sum(v for o, v in run.outcomes.items() if "|pe" in o),
